@@ -750,6 +750,13 @@ def m_int_try_from(ex, site, a):
 def m_range_contains(ex, site, a):
     r = deref(ex, a[0]); x = deref(ex, a[1]); lo, hi = r.fields[0], r.fields[1]
     sg = 'i' == (site_generic(site) or 'u')[:1]
+    isfp = lambda v: isinstance(v, float) or (is_sym(v) and z3.is_fp(v))
+    if isfp(lo) or isfp(hi) or isfp(x):
+        from .engine import F64
+        f = lambda v: v if is_sym(v) else z3.FPVal(float(v), F64)
+        if not any(is_sym(v) for v in (lo, hi, x)):
+            return lo <= x and (x <= hi if r.ty == 'RangeInclusive' else x < hi)
+        return z3.And(z3.fpLEQ(f(lo), f(x)), z3.fpLEQ(f(x), f(hi)) if r.ty == 'RangeInclusive' else z3.fpLT(f(x), f(hi)))
     def le(p, q):
         if not is_sym(p) and not is_sym(q): return p <= q
         bits = p.size() if is_sym(p) else q.size()
